@@ -624,7 +624,15 @@ func (h *Handler) Handle(req map[string]interface{}) interface{} {
 	}
 	resp["recs"] = out
 	if ctx.Err() != nil {
+		// calls did not return within the deadline: report what the handlers are blocked in and
+		// give up this server (its goroutines may be stuck for good)
 		resp["deadline"] = true
+		buf := make([]byte, 4<<20)
+		resp["stacks"] = string(buf[:runtime.Stack(buf, true)])
+		go h.n.close()
+		h.n = nil
+		resp["races"] = h.raceLog()
+		return resp
 	}
 
 	// ---- after the last return: the final observable state
